@@ -227,7 +227,7 @@ func c06Case(c *Ctx, id string, conf machConf, u c06Uni, ops []mOp, guardLast bo
 
 func init() {
 	register("C06", func(c *Ctx) {
-		c.Rule = "state-space enumeration: every reachable ordered rule list over a 4-rule universe x every operation of a ~75-op alphabet (Add/Remove/Update/RemoveFiltered, batch and Ex variants, Clear), for p2 (arity 2), p (arity 3) and g; plus seeded random histories over fields with separator-like characters (; | space quote NUL $$, no comma). Distinct = (policy type, state, op) or history; non-trivial = the history changes the listed rules at least once."
+		c.Rule = "state-space enumeration: every reachable ordered rule list over a 4-rule universe x every operation of a ~75-op alphabet (Add/Remove/Update/RemoveFiltered, batch and Ex variants, Clear), for p2 (arity 2), p (arity 3) and g; plus seeded random histories over fields with separator-like characters (; | space quote NUL $$, no comma). Distinct = (policy type, state, op) or history; non-trivial = the history changes the listed rules at least once. Additions: targets g2 and the priority model (insertion in front of listed rules; preceded by a re-sorting load); identity and chain batch updates compared with the model outside the F08 guard; auto-save-on histories of the shared generator incl. UpdateFilteredPolicies (new rules may equal rules the filter selects); re-ordering loads (priority, subject hierarchy) followed by HasPolicy / RemovePolicy / UpdatePolicy on every slot; a cap on the number of reachable listings."
 		type target struct {
 			conf machConf
 			pt   string
